@@ -506,6 +506,10 @@ func judgeC03(root string, c c03Case) (string, string) {
 			// a selector that leaves out the path a (and with it, possibly, the link source of something it selects)
 			opt.MetadataOnly = func(p string, _ *types.Stat) bool { return p != "a" }
 			opt.Merge = true
+		case "meta-merge-hide-a-tree":
+			// a selector that leaves out a and everything below it
+			opt.MetadataOnly = func(p string, _ *types.Stat) bool { return p != "a" && !strings.HasPrefix(p, "a/") }
+			opt.Merge = true
 		case "merge":
 			opt.Merge = true
 		case "merge-filter-a":
@@ -775,6 +779,30 @@ func childC03(args []string) int {
 					cur.Truncate(0)
 					cur.WriteAt(b, 0)
 				}
+				k, m := judgeC03("/", c)
+				out.Evals++
+				if k != "" {
+					out.Count[k]++
+					if out.Count[k] <= 3 {
+						json.NewEncoder(os.Stdout).Encode(c03Out{Viol: []c03Viol{{k, m, c}}})
+					} else {
+						json.NewEncoder(os.Stdout).Encode(c03Out{Count: map[string]int{k: 1}})
+					}
+				}
+			}
+		}
+	}
+	// a hard link whose source lies BELOW a path the selector leaves alone, into destinations where that path is a link
+	// to an outside directory holding an entry of that name: [a dir; a/X file; b -> hard link of a/X]
+	for _, child := range []string{"a/f", "a/g", "a/b"} {
+		for _, pr := range []string{"a-symlink-out", "a-chain-out", "a-chain-rel"} {
+			for _, op := range []string{"meta-merge-hide-a-tree", "merge-filter-a", "meta-merge-hide-a", "meta-merge"} {
+				i++
+				if i%n != shard || i < start {
+					continue
+				}
+				sc := []sym{{T: "stat", Path: "a", Kind: "dir"}, {T: "stat", Path: child, Kind: "file"}, {T: "stat", Path: "b", Kind: "hl:" + child}}
+				c := c03Case{Script: sc, Prior: pr, Coop: true, Opt: op}
 				k, m := judgeC03("/", c)
 				out.Evals++
 				if k != "" {
